@@ -233,23 +233,57 @@ func ruleOneTable(c *Check, w *World, tb *TB, ef *Effects, rule string) {
 			continue
 		}
 		uses := map[string]bool{}
-		EachInstr(f, func(in ssa.Instruction) {
-			var x ssa.Value
-			switch y := in.(type) {
-			case *ssa.Lookup:
-				x = y.X
-			case *ssa.Range:
-				x = y.X
-			default:
+		mapReads := func(fn *ssa.Function) map[string]bool {
+			m := map[string]bool{}
+			EachInstr(fn, func(in ssa.Instruction) {
+				var x ssa.Value
+				switch y := in.(type) {
+				case *ssa.Lookup:
+					x = y.X
+				case *ssa.Range:
+					x = y.X
+				default:
+					return
+				}
+				if _, isMap := x.Type().Underlying().(*types.Map); !isMap {
+					return
+				}
+				for _, r := range tb.RootTerms(tb.Of(x), 0) {
+					m[r.Sym] = true
+				}
+			})
+			return m
+		}
+		for u := range mapReads(f) {
+			uses[u] = true
+		}
+		// lookup helpers: module callees (transitively, depth 3) that themselves read the registry count with
+		// all their map reads
+		seenH := map[*ssa.Function]bool{f: true}
+		var addHelpers func(fn *ssa.Function, depth int)
+		addHelpers = func(fn *ssa.Function, depth int) {
+			if depth > 3 {
 				return
 			}
-			if _, isMap := x.Type().Underlying().(*types.Map); !isMap {
-				return
-			}
-			for _, r := range tb.RootTerms(tb.Of(x), 0) {
-				uses[r.Sym] = true
-			}
-		})
+			EachInstr(fn, func(in ssa.Instruction) {
+				ci, ok := in.(ssa.CallInstruction)
+				if !ok {
+					return
+				}
+				g := ci.Common().StaticCallee()
+				if g == nil || !w.InModule(g) || g.Blocks == nil || seenH[g] {
+					return
+				}
+				seenH[g] = true
+				if mr := mapReads(g); mr[gsym] {
+					for u := range mr {
+						uses[u] = true
+					}
+					addHelpers(g, depth+1)
+				}
+			})
+		}
+		addHelpers(f, 1)
 		var list []string
 		for u := range uses {
 			list = append(list, u)
